@@ -789,6 +789,9 @@ impl Compiler {
 
         // Push loop context for break (switch uses the same break mechanism)
         self.push_loop(None);
+        if let Some(ctx) = self.loop_stack.last_mut() {
+            ctx.is_switch = true;
+        }
 
         // Collect case targets
         let mut case_jumps: Vec<super::JumpPlaceholder> = Vec::new();
